@@ -7,6 +7,7 @@ import (
 	"sort"
 	"strings"
 	"sync"
+	"sync/atomic"
 	"time"
 
 	"tunnox-core/internal/cloud/models"
@@ -147,13 +148,14 @@ type world struct {
 	store  *faultCtl
 	hs     []*hybrid.Storage
 	nodes  []*node
+	pers   *vkit.GatePersistent // persistent tier (nil: memory-only hybrid)
 	pre    func(op, key string) // optional hook: a task arrives at a tier write (see selCache.pre)
 }
 
 // newWorld builds nNodes service stacks over one store. gated=false leaves the gate nil
 // (sequential histories).
 func newWorld(nNodes int, cfg *services.ConnectionCodeServiceConfig, gated bool) *world {
-	return newWorldWith(nNodes, cfg, gated, nil, false)
+	return newWorldWith(nNodes, cfg, gated, nil, false, false)
 }
 
 // sel (optional) chooses which cache-tier operations are scheduling points.
@@ -162,14 +164,44 @@ func newWorld(nNodes int, cfg *services.ConnectionCodeServiceConfig, gated bool)
 // cluster=true: the multi-node deployment: each node has its own hybrid.Storage with its own
 // node-local cache and all nodes share one shared cache tier (the Redis role); which keys are
 // cross-node is decided by hybrid's key classes, exactly as on a real cluster.
-func newWorldWith(nNodes int, cfg *services.ConnectionCodeServiceConfig, gated bool, sel func(string) bool, cluster bool) *world {
+// stallNanos is the gate's stall threshold. It starts long (on the unchanged tree nothing blocks outside the
+// gate, so a "stall" can only be a runnable task the loaded machine has not scheduled yet); once schedules
+// with genuine stalls have been seen (code under test that blocks a task on another task outside the gate)
+// it drops, so that such a tree does not cost 5 s per schedule.
+var stallNanos atomic.Int64
+var stallsSeen atomic.Int32
+
+func init() { stallNanos.Store(int64(5 * time.Second)) }
+
+func noteStalls(n int) {
+	if n > 0 && stallsSeen.Add(1) >= 2 {
+		stallNanos.Store(int64(40 * time.Millisecond))
+	}
+}
+
+// persist=true: hybrid with EnablePersistent over a persistent-store double shared by all nodes (every
+// persistent-class write goes to it first, then to the cache tier); its operations are not scheduling points.
+func newWorldWith(nNodes int, cfg *services.ConnectionCodeServiceConfig, gated bool, sel func(string) bool, cluster bool, persist bool) *world {
 	ctx, cancel := context.WithCancel(context.Background())
 	w := &world{ctx: ctx, cancel: cancel, store: &faultCtl{failAt: -1}}
 	if gated {
 		w.g = vkit.NewGate()
 		// no lock of the code under test is held across a storage operation in these programs, so a
 		// "stall" can only be a runnable task that the loaded machine has not scheduled yet: wait long.
-		w.g.Stall = 5 * time.Second
+		w.g.Stall = time.Duration(stallNanos.Load())
+	}
+	var pers stypes.PersistentStorage
+	hcfg := func() *hybrid.Config {
+		c := hybrid.DefaultConfig()
+		c.EnablePersistent = persist
+		return c
+	}
+	if persist {
+		w.pers = vkit.NewGatePersistent(nil, "pers")
+		pers = w.pers
+		if w.g != nil {
+			w.g.Grace = 400 * time.Microsecond // hybrid's asynchronous cache write-back goroutines are adopted as tasks
+		}
 	}
 	wrap := func(c *vkit.GateCache) stypes.CacheStorage {
 		if sel != nil {
@@ -193,10 +225,10 @@ func newWorldWith(nNodes int, cfg *services.ConnectionCodeServiceConfig, gated b
 		case cluster:
 			local := vkit.NewGateCache(w.g, fmt.Sprintf("local%d", i+1))
 			w.locals = append(w.locals, local)
-			h = hybrid.NewWithSharedCache(ctx, wrap(local), wrap(w.cache), nil, hybrid.DefaultConfig())
+			h = hybrid.NewWithSharedCache(ctx, wrap(local), wrap(w.cache), pers, hcfg())
 			w.hs = append(w.hs, h)
 		case single == nil:
-			single = hybrid.NewWithSharedCache(ctx, wrap(w.cache), nil, nil, hybrid.DefaultConfig())
+			single = hybrid.NewWithSharedCache(ctx, wrap(w.cache), nil, pers, hcfg())
 			w.hs = append(w.hs, single)
 			h = single
 		default:
@@ -234,7 +266,17 @@ const (
 
 // mappings returns every port-mapping record in storage, sorted by id.
 func (w *world) mappings() []*models.PortMapping {
+	// a mapping record counts wherever it is stored: cache tier or persistent tier
 	raw, _ := w.cache.Raw().QueryByPrefix(pmPrefix, 0)
+	if w.pers != nil {
+		if pm, _ := w.pers.QueryByPrefix(pmPrefix, 0); pm != nil {
+			for k, v := range pm {
+				if _, ok := raw[k]; !ok {
+					raw[k] = v
+				}
+			}
+		}
+	}
 	var out []*models.PortMapping
 	for _, v := range raw {
 		var m models.PortMapping
